@@ -1313,6 +1313,33 @@ func (fr *frame) invEnv(h *ssa.BasicBlock, st *State) *Env {
 			env.vars[name] = SV{fr.plain(v, st), goT(pick.v.Type())}
 		}
 	}
+	// variables that live in a stack cell for their whole life (named results of functions with defer, address-taken
+	// locals) and were not named by a debug reference above: the Alloc carries the variable's name
+	for _, b := range fr.fn.Blocks {
+		for _, in := range b.Instrs {
+			al, ok := in.(*ssa.Alloc)
+			if !ok || al.Comment == "" || strings.ContainsAny(al.Comment, " .()&") {
+				continue
+			}
+			if _, bound := env.vars[al.Comment]; bound {
+				continue
+			}
+			if !fr.dominatesHeader(al, h) {
+				continue
+			}
+			v, ok := fr.vals[al]
+			if !ok {
+				continue
+			}
+			pt, ok := al.Type().Underlying().(*types.Pointer)
+			if !ok {
+				continue
+			}
+			if pl := fr.placeOf(v, pt.Elem()); pl != nil {
+				env.vars[al.Comment] = SV{fr.ft.load(pl, st), goT(pt.Elem())}
+			}
+		}
+	}
 	// map range: $rem = the set of keys not yet visited (ghost)
 	for _, in := range h.Instrs {
 		if nx, ok := in.(*ssa.Next); ok && !nx.IsString {
